@@ -197,14 +197,17 @@ class Run:
             return True
         if z3.is_false(c):
             return False
-        opts = []
-        if self.feasible(c):
-            opts.append(True)
-        if self.feasible(z3.Not(c)):
-            opts.append(False)
-        if not opts:
-            raise PathEnd()
-        ch = self.oracle.choose(opts, label)
+        if self.oracle.peek() is not None:
+            ch = self.oracle.choose([True, False], label)
+        else:
+            opts = []
+            if self.feasible(c):
+                opts.append(True)
+            if self.feasible(z3.Not(c)):
+                opts.append(False)
+            if not opts:
+                raise PathEnd()
+            ch = self.oracle.choose(opts, label)
         self.labels.append("%s:%s" % (label, "T" if ch else "F"))
         self.assume(c if ch else z3.Not(c))
         return ch
@@ -279,9 +282,15 @@ class Run:
             if v.t.kind == "union":
                 # re-inject member-wise
                 res = None
+                missing = [m for m in v.t.members if ty.index(m) is None]
+                if len(missing) == len(v.t.members):
+                    raise EngineError("cannot coerce %s to %s" % (v.t, ty))
+                if missing:
+                    # members the target cannot hold: a TypeError path (usually infeasible here)
+                    self.fail_if(z3.Or([v.t.is_(v.z, m) for m in missing]), "TypeError", "coerce")
                 for m in reversed(v.t.members):
                     if ty.index(m) is None:
-                        raise EngineError("cannot coerce %s to %s" % (v.t, ty))
+                        continue
                     inj = ty.inject(m, v.t.proj(v.z, m))
                     res = inj if res is None else z3.If(v.t.is_(v.z, m), inj, res)
                 return V(ty, res)
@@ -303,6 +312,8 @@ class Run:
             return V(T.Int, z3.If(v.z, 1, 0))
         if ty.kind == "seq" and v.t.kind == "seq" and v.t.elem == ty.elem:
             return V(ty, v.z)
+        if ty.kind == "seq" and v.t.kind in ("seq", "list") and self.can_inject(self.as_seq(v).t.elem, ty.elem):
+            return self.coerce_seq(self.as_seq(v), ty)
         if ty.kind == "seq" and v.t.kind == "list" and v.t.elem == ty.elem:
             return V(ty, self.content(v).z)
         if ty.kind == "tuple" and v.t.kind == "tuple" and len(ty.items) == len(v.t.items):
@@ -321,6 +332,44 @@ class Run:
             return self.content(v)
         raise EngineError("cannot coerce %s to %s" % (v.t, ty))
 
+    def can_inject(self, a, b):
+        if a == b:
+            return True
+        if b.kind == "union":
+            if a.kind == "union":
+                return all(b.index(m) is not None for m in a.members)
+            return b.index(a) is not None
+        return b.kind == "real" and a.kind in ("int", "bool")
+
+    def coerce_seq(self, s, ty):
+        """element-wise injection of a sequence into a wider element type"""
+        z = zsimp(s.z)
+
+        def conv(x):
+            return self.coerce(V(s.t.elem, x), ty.elem).z
+
+        def rec(t):
+            if z3.is_app(t):
+                k = t.decl().kind()
+                if k == z3.Z3_OP_SEQ_EMPTY:
+                    return z3.Empty(ty.sort())
+                if k == z3.Z3_OP_SEQ_UNIT:
+                    return z3.Unit(conv(t.arg(0)))
+                if k == z3.Z3_OP_SEQ_CONCAT:
+                    return z3.Concat(*[rec(c) for c in t.children()])
+            key = ("coerce_seq", t.get_id(), ty.key())
+            cache = self.ctx.uf_cache
+            if key not in cache:
+                res = z3.Const(fresh_name("inj"), ty.sort())
+                kk = z3.Int(fresh_name("k"))
+                self.pc.append(z3.Length(res) == z3.Length(t))
+                self.solver.add(z3.Length(res) == z3.Length(t))
+                self.pc.append(z3.ForAll([kk], z3.Implies(z3.And(0 <= kk, kk < z3.Length(t)), res[kk] == conv(t[kk])), patterns=[res[kk]]))
+                cache[key] = res
+            return cache[key]
+
+        return V(ty, rec(z))
+
     def to_int(self, v):
         if v.t.kind == "int":
             return v.z
@@ -336,7 +385,7 @@ class Run:
 
     def project(self, v, want, label, exc="TypeError"):
         """Narrow a union value to a member whose type satisfies ``want``."""
-        if want(v.t):
+        if v.t.kind != "union" and want(v.t):
             return v
         if v.t.kind != "union":
             if self.pure:
@@ -349,7 +398,11 @@ class Run:
             raise PyRaise(Exc(exc, tag=label))
         if self.pure:
             if len(cands) > 1:
-                raise EngineError("ambiguous projection of %s in spec at %s" % (v.t, label))
+                feas = [m for m in cands if self.feasible(v.t.is_(v.z, m))]
+                if len(feas) == 1:
+                    cands = feas
+                else:
+                    raise EngineError("ambiguous projection of %s in spec at %s" % (v.t, label))
             return V(cands[0], v.t.proj(v.z, cands[0]))
         ok = z3.Or([v.t.is_(v.z, m) for m in cands])
         self.fail_if(z3.Not(ok), exc, label)
@@ -475,6 +528,10 @@ class Run:
                 return a.z == b.z
             if not self.pure and a.t.py != b.t.py:
                 return z3.BoolVal(False)
+            if self.can_inject(a.t.elem, b.t.elem):
+                return self.coerce(a, T.Seq(b.t.elem, py=a.t.py)).z == b.z
+            if self.can_inject(b.t.elem, a.t.elem):
+                return a.z == self.coerce(b, T.Seq(a.t.elem, py=b.t.py)).z
             raise Unsupported("== on sequences of different element types %s %s" % (a.t, b.t))
         if ka == "seq" and kb == "tuple":
             return self.eq(a, self.coerce(b, a.t), heap)
@@ -522,8 +579,20 @@ class Run:
         if ka == "union" or kb == "union":
             # identity of opaque / none / bool members
             u, o = (a, b) if ka == "union" else (b, a)
+            if o.t.kind != "union" and u.t.index(o.t) is None:
+                return z3.BoolVal(False)
             if o.t.kind == "opaque":
                 return z3.And(u.t.is_(u.z, o.t), u.t.proj(u.z, o.t) == o.z)
+            if o.t.kind == "union" and o.t != u.t:
+                alts = []
+                for m in u.t.members:
+                    if o.t.index(m) is None:
+                        continue
+                    if m.kind in ("none", "bool", "opaque"):
+                        alts.append(z3.And(u.t.is_(u.z, m), o.t.is_(o.z, m), u.t.proj(u.z, m) == o.t.proj(o.z, m)))
+                    else:
+                        raise Unsupported("`is` on unions sharing a %s member" % m)
+                return z3.Or(alts) if alts else z3.BoolVal(False)
             if o.t.kind == "union" and o.t == u.t:
                 # both unions: identical iff same tag and (none|bool|opaque) payload equal
                 alts = []
@@ -624,27 +693,24 @@ class Run:
                 cnt = self.cell_ghost(c.z)["cnt"]
                 return z3.Select(cnt, self.coerce(x, c.t.elem).z) >= 1
             s = self.as_seq(c, heap)
-            try:
-                xe = self.coerce(x, s.t.elem)
-            except EngineError:
+            g, xe = self.member_key(x, s.t.elem)
+            if xe is None:
                 return z3.BoolVal(False)
-            return z3.Contains(s.z, z3.Unit(xe.z))
+            return z3.And(g, z3.Contains(s.z, z3.Unit(xe.z)))
         if k == "tuple":
             return z3.Or([self.eq(V(t, c.t.get(c.z, i)), x, heap) for i, t in enumerate(c.t.items)] or [z3.BoolVal(False)])
         if k in ("set", "vset"):
             s = self.content(c, heap) if k == "set" else c
-            try:
-                xe = self.coerce(x, s.t.elem)
-            except EngineError:
+            g, xe = self.member_key(x, s.t.elem)
+            if xe is None:
                 return z3.BoolVal(False)
-            return z3.Select(s.z, xe.z)
+            return z3.And(g, z3.Select(s.z, xe.z))
         if k in ("dict", "vmap"):
             m = self.content(c, heap) if k == "dict" else c
-            try:
-                xe = self.coerce(x, m.t.k)
-            except EngineError:
+            g, xe = self.member_key(x, m.t.k)
+            if xe is None:
                 return z3.BoolVal(False)
-            return z3.Select(m.t.has(m.z), xe.z)
+            return z3.And(g, z3.Select(m.t.has(m.z), xe.z))
         if k in ("drec", "itemref", "rec"):
             from . import records
 
@@ -654,6 +720,24 @@ class Run:
         if k == "const" and isinstance(c.z, (tuple, list, set, frozenset)):
             return z3.Or([self.eq(self.lift(e), x, heap) for e in c.z] or [z3.BoolVal(False)])
         raise Unsupported("`in` on %s" % c.t)
+
+    def member_key(self, x, elem):
+        """(guard, key) for `x in container-of-elem` - membership never raises: a value of another
+        type is simply not a member"""
+        if x.t == elem:
+            return z3.BoolVal(True), x
+        if x.t.kind == "union" and x.t.index(elem) is not None and elem.kind != "union":
+            return x.t.is_(x.z, elem), V(elem, x.t.proj(x.z, elem))
+        if x.is_const or x.t.heap:
+            return z3.BoolVal(False), None
+        saved = self.pure
+        self.pure = True
+        try:
+            return z3.BoolVal(True), self.coerce(x, elem)
+        except EngineError:
+            return z3.BoolVal(False), None
+        finally:
+            self.pure = saved
 
     def lift(self, obj):
         """python constant -> V"""
